@@ -32,7 +32,8 @@ THEOREMS = ['C12_expand_shorthand', 'C12_interpolates_evenly_spaced',
             'C12_last_value_app', 'C12_like_written_zero_iff',
             'C12_cell_card_zero_iff',
             'C12_plain_card_zero_iff', 'C12_conv_keys_not_skipped',
-            'C12_written_volumes', 'C12_imp_card_text',
+            'C12_written_volumes', 'C12_generated_converted_iff',
+            'C12_imp_card_text',
             'C12_parse_deck_text_split']
 TRUSTED = [
     'hand-written model coq/C12/Model.v + Text.v (modelled, tied by '
@@ -442,6 +443,87 @@ def class_of(deck, cell, emitted, listed):
     return None
 
 
+PROBE_DIRS = [(0.6, 0.48, 0.64), (-0.6, 0.64, -0.48), (0.48, -0.64, 0.6),
+              (-0.64, -0.48, 0.6)]
+
+
+def probe_points(index):
+    '''Points inside the region of the explicit cell number `index` of the
+    nested shells written by c12_gen.geom_for (radius index + 0.5), away from
+    the planes the fill universes use.'''
+    rad = index + 0.5
+    return [tuple(rad * c for c in d) for d in PROBE_DIRS]
+
+
+def point_failures(cells, t4):
+    '''cells: [(id, shell index, zero?)] of level-0 cells with pairwise
+    disjoint regions. A point of a zero-importance cell must lie in no written
+    non-virtual volume, a point of any other cell in at least one.'''
+    import t4eval
+    ev = t4eval.Evaluator(t4)
+    out = []
+    for cid, index, zero in cells:
+        for pnt in probe_points(index):
+            try:
+                owners = ev.owners(pnt)
+            except t4eval.T4EvalError as exc:
+                out.append((cid, f'cannot evaluate the written file at {pnt}: '
+                            f'{exc}'))
+                break
+            if zero and owners:
+                out.append((cid, f'cell {cid} has importance 0 for every '
+                            f'particle but its point {pnt} lies in written '
+                            f'volume(s) {owners}'))
+                break
+            if not zero and not owners:
+                out.append((cid, f'cell {cid} has non-zero importance but its '
+                            f'point {pnt} lies in no written volume'))
+                break
+    return out
+
+
+FILL_UNIVERSES = [
+    # (universe, cell lines (id, geometry), surface lines)
+    (5, [(201, '-90'), (202, '90')], ['90 px 0']),
+    (6, [(211, '-91')], ['91 so 1000']),
+    (7, [(221, '-92 93'), (222, '92'), (223, '-93')], ['92 py 0.3', '93 py -0.3']),
+]
+
+
+def gen_fill_deck(rng):
+    '''A level-0 deck (no LIKE cells: regions are pairwise disjoint) in which
+    one or two cells, of zero or non-zero importance, are FILLed with a small
+    universe; importances from cell cards, data cards (with shorthand) or both.'''
+    deck = gen_deck(rng, level0=True, malformed=False, like=False)
+    level0 = list(deck['cells'])
+    victims = rng.sample(level0, rng.choice([1, 1, 2]))
+    # prefer a zero-importance victim: that is the case the property is about
+    zeros = [c for c in level0 if c['zero']]
+    if zeros and rng.random() < 0.7 and not any(v['zero'] for v in victims):
+        victims[0] = rng.choice(zeros)
+    extra_surfs = []
+    for cell in level0:
+        cell['level0'] = True
+    used = rng.sample(FILL_UNIVERSES, len(victims))
+    for victim, (univ, ucells, usurfs) in zip(victims, used):
+        kw = g.case_mix('fill', rng) + rng.choice(['=', ' ', ' = '])
+        victim['opts'] = (victim['opts'] + ' ' + kw + str(univ)).strip()
+        victim['filled'] = True
+        extra_surfs.extend(usurfs)
+        for cid, geom in ucells:
+            deck['cells'].append({
+                'id': cid, 'like': None, 'blocks': [], 'mat': '0', 'geom': geom,
+                'opts': f'u={univ} imp:n,p,e,h=1', 'values': [1.0],
+                'zero': False, 'level0': False})
+    n_extra = len(deck['cells']) - len(level0)
+    deck['imp_cards'] = [(name, toks + rng.choice([['1'] * n_extra,
+                                                   ['1', f'{n_extra - 1}r']
+                                                   if n_extra > 1 else ['1']]))
+                         for name, toks in deck['imp_cards']]
+    deck['extra_surfs'] = extra_surfs
+    return deck
+
+
 def oracle_conversion(deck, text):
     '''Returns (conv, failures); failures = [(cell, what, cls)].'''
     conv = impl.convert(text)
@@ -453,9 +535,28 @@ def oracle_conversion(deck, text):
     t4 = impl.T4File(conv.text)
     volu = set(t4.volumes)
     note = g.note_list(conv.stdout)
+    if deck.get('extra_surfs') is not None:
+        # pairwise disjoint level-0 regions: check what is WRITTEN at probe points
+        probes = [(c['id'], c['index'], c['zero']) for c in deck['cells']
+                  if c.get('level0')]
+        for cid, what in point_failures(probes, t4):
+            fails.append((None, what, None))
     for cell in deck['cells']:
         emitted = cell['id'] in volu
         listed = cell['id'] in note
+        if not cell.get('level0', True):
+            # a cell of a universe: not a level-0 cell
+            if emitted or listed != cell['zero']:
+                fails.append((cell, f'universe cell {cell["id"]}: emitted='
+                              f'{emitted} listed={listed}', None))
+            continue
+        if cell.get('filled'):
+            # its region is written under new ids: judged by the probe points
+            if emitted or listed != cell['zero']:
+                fails.append((cell, f'filled cell {cell["id"]} (zero='
+                              f'{cell["zero"]}): emitted under its own id='
+                              f'{emitted} listed={listed}', None))
+            continue
         if cell['zero'] and (emitted or not listed):
             fails.append((cell, f'cell {cell["id"]} has importance 0 for '
                           f'every particle but emitted={emitted} '
@@ -475,9 +576,11 @@ def oracle_conversion(deck, text):
 # corpus: hand-written decks with hand-written answers (which cells are zero)
 # ---------------------------------------------------------------------------
 
-def corpus_deck(cells, imp_cards):
+def corpus_deck(cells, imp_cards, extra=None):
     '''cells: [(id, options)] explicit void cells in nested shells, or
-    (id, ('like', n), options).'''
+    (id, ('like', n), options); extra: raw cell lines (universes) and surface
+    lines appended to the blocks.'''
+    extra = extra or {}
     explicit = [c for c in cells if len(c) == 2]
     lines = ['C12 corpus deck']
     k = 0
@@ -488,9 +591,11 @@ def corpus_deck(cells, imp_cards):
             k += 1
         else:
             lines.append(f'{cell[0]} like {cell[1][1]} but {cell[2]}'.rstrip())
+    lines.extend(extra.get('cells', []))
     lines.append('')
     for j in range(1, max(1, len(explicit) - 1) + 1):
         lines.append(f'{j} so {j}')
+    lines.extend(extra.get('surfs', []))
     lines.append('')
     lines.extend(imp_cards)
     lines.append('nps 1')
@@ -555,19 +660,32 @@ CORPUS = [
     ('nonu-is-not-u', [(1, 'imp:n=1 nonu=1'), (2, 'imp:n=0'),
                        (3, 'unc:n=1 imp:n=1'), (4, 'imp:n=0 nonu=2')],
      [], [2, 4]),
+    # zero-importance level-0 cells that are FILLed: nothing of their region may
+    # be written (the cells generated by the FILL copy the container's importance)
+    ('filled-zero-cell-card', [(1, 'imp:n=1'), (2, 'imp:n=0 fill=5'), (3, 'imp:n=1 fill=5'),
+                               (4, 'fill=5 imp:n=0 imp:p=0')], [], [2, 4],
+     {'cells': ['201 0 -90 u=5 imp:n=1', '202 0 90 u=5 imp:n=1'],
+      'surfs': ['90 px 0'], 'filled': [2, 3, 4]}),
+    ('filled-zero-data-card-shorthand', [(1, ''), (2, 'fill=6'), (3, 'FILL 6'), (4, '')],
+     ['imp:n 1 0 1 0 2r', 'imp:p 0 r 1 2m 1 0'], [2],
+     {'cells': ['211 0 -91 u=6', '212 0 91 u=6'], 'surfs': ['91 so 1000'],
+      'filled': [2, 3], 'universe_zero': [212]}),
     ('keywords-after-imp', [(1, 'imp:n=0 vol=3 tmp=2.5-8'), (2, 'vol=1 imp:n=1 pwt=0')],
      [], [1]),
 ]
 
 
 def corpus(res):
-    '''Every corpus deck through the whole converter (VOLU ids, NOTE) and
-    through parse() (skip list), against the hand-written answer.'''
-    for name, cells, cards, zero in CORPUS:
-        text = corpus_deck(cells, cards)
+    '''Every corpus deck through the whole converter (VOLU ids, NOTE, probe
+    points) and through parse() (skip list), against the hand-written answer.'''
+    for name, cells, cards, zero, *rest in CORPUS:
+        extra = rest[0] if rest else {}
+        text = corpus_deck(cells, cards, extra)
         res.seen(('corpus', name), nontrivial=True)
         res.count('corpus')
         ids = [c[0] for c in cells]
+        filled = extra.get('filled', [])
+        listed_expected = sorted(zero + extra.get('universe_zero', []))
         conv = impl.convert(text)
         if not conv.ok or conv.text is None:
             res.violation('impl-violation', f'corpus deck {name} rejected: '
@@ -575,17 +693,26 @@ def corpus(res):
                           {'input': {'deck': text}, 'expected': zero},
                           found_input=True)
             continue
-        volu = set(impl.T4File(conv.text).volumes)
+        t4 = impl.T4File(conv.text)
+        volu = set(t4.volumes)
         note = g.note_list(conv.stdout)
-        live = [k for k in ids if k not in zero]
-        if sorted(volu & set(ids)) != sorted(live) or sorted(note) != sorted(zero):
+        live = [k for k in ids if k not in zero and k not in filled]
+        if sorted(volu & set(ids)) != sorted(live) \
+                or sorted(note) != listed_expected:
             res.violation('impl-violation',
                           f'corpus deck {name}: zero-importance cells {zero}; '
                           f'VOLU {sorted(volu & set(ids))} NOTE {note}',
                           {'input': {'deck': text}, 'expected': zero},
                           found_input=True)
+        if all(len(c) == 2 for c in cells):
+            # no LIKE cell: pairwise disjoint regions, look at what is written
+            probes = [(c[0], k, c[0] in zero) for k, c in enumerate(cells)]
+            for cid, what in point_failures(probes, t4):
+                res.violation('impl-violation', f'corpus deck {name}: {what}',
+                              {'input': {'deck': text}, 'expected': zero},
+                              found_input=True)
         result = g.run_impl(text, [])
-        if result[0] != 'ok' or sorted(result[2]) != sorted(zero):
+        if result[0] != 'ok' or sorted(result[2]) != listed_expected:
             res.violation('impl-violation',
                           f'corpus deck {name}: zero-importance cells {zero}; '
                           f'parse() skip list {result[2] if result[0] == "ok" else result[1]}',
@@ -688,9 +815,12 @@ def parse_ties(res, rng, n_valid, n_bad):
 
 def conversion_sweep(res, rng, n_decks, n_guard):
     cases, meta = [], []
+    fill_cases, fill_meta = [], []
     for i in range(n_decks + n_guard):
         guard = i >= n_decks
-        deck = gen_deck(rng, level0=True, malformed=False)
+        fill = not guard and i % 4 == 3
+        deck = gen_fill_deck(rng) if fill \
+            else gen_deck(rng, level0=True, malformed=False)
         if guard:
             # outside the theorems' hypotheses: keywords containing a 'u'
             victim = rng.choice(deck['cells'])
@@ -701,7 +831,12 @@ def conversion_sweep(res, rng, n_decks, n_guard):
         conv, fails = oracle_conversion(deck, text)
         n_zero = sum(1 for c in deck['cells'] if c['zero'])
         res.seen(('conv', text), nontrivial=0 < n_zero < len(deck['cells']))
-        res.count('conv-mode:' + deck['mode'] + (':guard' if guard else ''))
+        res.count('conv-mode:' + deck['mode'] + (':guard' if guard else '')
+                  + (':fill' if fill else ''))
+        if fill:
+            res.count('conv-fill:zero-importance-filled-cells',
+                      sum(1 for c in deck['cells']
+                          if c.get('filled') and c['zero']))
         res.count(f'conv-zero-cells:{min(n_zero, 4)}')
         for cell, what, cls in fails:
             res.violation('impl-violation', what,
@@ -719,6 +854,17 @@ def conversion_sweep(res, rng, n_decks, n_guard):
                 volu = [k for k in order if k in t4.volumes and k in ids]
                 note = g.note_list(conv.stdout) \
                     if g.NOTE_RE.search(conv.stdout) else None
+                if fill:
+                    pairs = []
+                    for vid in t4.vol_order:
+                        vol = t4.volumes[vid]
+                        m = re.fullmatch(r'\((\d+), (\d+)\)', vol['comment'].strip())
+                        if m and not vol['fictive']:
+                            pairs.append((int(m.group(1)), int(m.group(2))))
+                    fill_cases.append(cpair(
+                        g.c_pcase(deck, (), result),
+                        clist(cpair(cz(a), cz(b)) for a, b in pairs)))
+                    fill_meta.append((deck, text))
                 cases.append(cpair(g.c_pcase(deck, (), result),
                                    clist(cz(k) for k in volu),
                                    copt(note, lambda l: clist(cz(k)
@@ -743,6 +889,25 @@ def conversion_sweep(res, rng, n_decks, n_guard):
                       'from Model.written_ids / Model.note', {'input': {'deck': text},
                                           'theorem_or_correspondence':
                                           'tie:conv'}, found_input=False)
+    fbad, ferrs = run_cases('c12_fill', HEADER, 'pcase * list (Z * Z)',
+                            'check_fill', fill_cases, chunk=40)
+    res.obligation(f'tie:fill ({len(fill_cases)} conversions of decks with '
+                   'FILLed level-0 cells: Model.conv_generated = the (universe '
+                   'cell, container) comments of the written non-virtual '
+                   'volumes)', not fbad and not ferrs,
+                   f'{len(fbad)} disagreements {ferrs[:1]}')
+    for idx in fbad[:10]:
+        deck, text = fill_meta[idx]
+        res.violation('correspondence',
+                      'written volumes stemming from FILL differ from '
+                      'Model.conv_generated', {'input': {'deck': text},
+                                               'theorem_or_correspondence':
+                                               'tie:fill'}, found_input=False)
+    if ferrs:
+        res.violation('correspondence', 'tie:fill could not be evaluated: '
+                      + ferrs[0][-300:], {'theorem_or_correspondence':
+                                          'tie:fill', 'errors': ferrs[:2]},
+                      found_input=False)
     if errs:
         res.violation('correspondence', 'tie:conv could not be evaluated: '
                       + errs[0][-300:], {'theorem_or_correspondence':
